@@ -8,6 +8,11 @@
 //! Answer: output tensors `i:<dims>:<data>` (dtype letter from the real `Value` variant), `err` when
 //! loading or running fails, `panic`.
 //!
+//! Float operators with exact integer semantics (MaxPool, AveragePool, GlobalMaxPool, GlobalAveragePool,
+//! Conv) are fed small-integer f32 data; rten's f32 output times a common denominator (`scale`, the lcm
+//! of every possible window count) must be an integer up to f32 rounding and is compared as that
+//! integer with the reference's exact `sum * scale / count`.
+//!
 //! Independent oracle (PROPFAIL): structural facts checked directly on rten's output, with a small
 //! separate Rust evaluation for element-wise/broadcast operators, order/selection facts for TopK /
 //! ArgMax / Reduce / CumSum, "data unchanged" for shape-only operators and "every output element comes
@@ -169,11 +174,13 @@ struct Case {
     inputs: Vec<Option<TIn>>,
     nout: usize,
     optimize: bool,
+    /// float outputs are multiplied by this and must then be (nearly) integers; None = integer operator
+    fscale: Option<i64>,
 }
 
 impl Case {
     fn new(op: &'static str) -> Case {
-        Case { op, opset: 21, attrs: vec![], inputs: vec![], nout: 1, optimize: true }
+        Case { op, opset: 21, attrs: vec![], inputs: vec![], nout: 1, optimize: true, fscale: None }
     }
     fn attr_i(&mut self, name: &str, v: i64) {
         self.attrs.push(At { name: name.into(), v: AV::I(v), to_model: true, to_onnx: true });
@@ -235,6 +242,7 @@ impl Case {
                         dt::INT32 => "i",
                         dt::INT64 => "l",
                         dt::BOOL => "b",
+                        dt::FLOAT => "f",
                         _ => "?",
                     });
                     vias.push(match t.via {
@@ -259,6 +267,7 @@ fn make_init(name: &str, t: &TIn) -> Tensor {
     match t.dtype {
         dt::INT64 => Tensor::i64s(name, &dims, &t.data),
         dt::BOOL => Tensor::bools(name, &dims, &t.data.iter().map(|&v| v != 0).collect::<Vec<_>>()),
+        dt::FLOAT => Tensor::f32s(name, &dims, &t.data.iter().map(|&v| v as f32).collect::<Vec<_>>()),
         _ => Tensor::i32s(name, &dims, &t.data.iter().map(|&v| sat32(v)).collect::<Vec<_>>()),
     }
 }
@@ -269,6 +278,7 @@ fn run_case(c: &Case) -> Result<Vec<(char, Vec<usize>, Vec<i64>)>, String> {
     let mut graph_inputs = vec![];
     let mut inits = vec![];
     let mut feeds: Vec<(String, RTensor<i32>)> = vec![];
+    let mut ffeeds: Vec<(String, RTensor<f32>)> = vec![];
     let mut extra_attrs: Vec<(String, Attr)> = vec![];
     for (k, i) in c.inputs.iter().enumerate() {
         let name = format!("in{k}");
@@ -278,10 +288,17 @@ fn run_case(c: &Case) -> Result<Vec<(char, Vec<usize>, Vec<i64>)>, String> {
                 Via::Run => {
                     let dims: Vec<i64> = t.shape.iter().map(|&d| d as i64).collect();
                     graph_inputs.push(ValueInfo::fixed(&name, t.dtype, &dims));
-                    feeds.push((
-                        name.clone(),
-                        RTensor::<i32>::from_data(&t.shape[..], t.data.iter().map(|&v| sat32(v)).collect::<Vec<_>>()),
-                    ));
+                    if t.dtype == dt::FLOAT {
+                        ffeeds.push((
+                            name.clone(),
+                            RTensor::<f32>::from_data(&t.shape[..], t.data.iter().map(|&v| v as f32).collect::<Vec<_>>()),
+                        ));
+                    } else {
+                        feeds.push((
+                            name.clone(),
+                            RTensor::<i32>::from_data(&t.shape[..], t.data.iter().map(|&v| sat32(v)).collect::<Vec<_>>()),
+                        ));
+                    }
                     node_inputs.push(name);
                 }
                 Via::Init => {
@@ -340,6 +357,10 @@ fn run_case(c: &Case) -> Result<Vec<(char, Vec<usize>, Vec<i64>)>, String> {
         let id = model.node_id(n).map_err(|e| format!("node_id: {e}"))?;
         run_inputs.push((id, t.view().into()));
     }
+    for (n, t) in &ffeeds {
+        let id = model.node_id(n).map_err(|e| format!("node_id: {e}"))?;
+        run_inputs.push((id, t.view().into()));
+    }
     let mut out_ids = vec![];
     for n in &out_names {
         out_ids.push(model.node_id(n).map_err(|e| format!("node_id: {e}"))?);
@@ -349,7 +370,15 @@ fn run_case(c: &Case) -> Result<Vec<(char, Vec<usize>, Vec<i64>)>, String> {
     for o in outs {
         match o {
             Value::Int32Tensor(t) => res.push(('i', t.shape().to_vec(), t.iter().map(|&v| v as i64).collect())),
-            Value::FloatTensor(t) => res.push(('f', t.shape().to_vec(), t.iter().map(|&v| v as i64).collect())),
+            Value::FloatTensor(t) => match c.fscale {
+                // integer-valued float operator: value * scale must be an integer up to f32 rounding
+                Some(sc) => {
+                    let scaled: Vec<f64> = t.iter().map(|&v| v as f64 * sc as f64).collect();
+                    let exact = scaled.iter().all(|v| v.is_finite() && (v - v.round()).abs() <= 3e-7 * v.abs() + 1e-9);
+                    res.push((if exact { 'i' } else { 'x' }, t.shape().to_vec(), scaled.iter().map(|v| v.round() as i64).collect()))
+                }
+                None => res.push(('f', t.shape().to_vec(), t.iter().map(|&v| v as i64).collect())),
+            },
             Value::Int8Tensor(t) => res.push(('c', t.shape().to_vec(), t.iter().map(|&v| v as i64).collect())),
             Value::UInt8Tensor(t) => res.push(('u', t.shape().to_vec(), t.iter().map(|&v| v as i64).collect())),
             _ => return Err("run: non-tensor output".into()),
@@ -1413,6 +1442,118 @@ fn gen_constant_of_shape(rng: &mut Rng) -> Case {
     c
 }
 
+fn float_tensor(rng: &mut Rng, shape: Vec<usize>, lo: i64, hi: i64) -> TIn {
+    let n = numel(&shape);
+    TIn { dtype: dt::FLOAT, data: rand_vals(rng, n, lo, hi), shape, via: data_via(rng) }
+}
+
+fn odd_size(rng: &mut Rng) -> usize {
+    *rng.pick(&[1usize, 2, 3, 3, 4, 5, 5, 6, 7, 7, 9])
+}
+
+/// Random spatial geometry attributes shared by pooling and convolution.
+fn spatial_attrs(rng: &mut Rng, c: &mut Case, nsp: usize, kernel: &[usize], allow_dil: bool) {
+    if rng.chance(3, 4) {
+        c.attr_is("strides", (0..nsp).map(|_| rng.range_i64(1, 3)).collect());
+    }
+    if allow_dil && rng.chance(1, 3) {
+        c.attr_is("dilations", (0..nsp).map(|_| rng.range_i64(1, 2)).collect());
+    }
+    match rng.below(8) {
+        0 => c.attr_s("auto_pad", "SAME_UPPER"),
+        1 => c.attr_s("auto_pad", "SAME_LOWER"),
+        2 => c.attr_s("auto_pad", "VALID"),
+        3 => {
+            if rng.chance(1, 2) {
+                c.attr_s("auto_pad", "NOTSET");
+            }
+        }
+        _ => {
+            // explicit, mostly asymmetric pads below the kernel extent
+            let mut pads = vec![0i64; 2 * nsp];
+            for a in 0..nsp {
+                let k = kernel[a] as i64;
+                pads[a] = rng.range_i64(0, (k - 1).max(0).min(2));
+                pads[nsp + a] = rng.range_i64(0, (k - 1).max(0).min(2));
+            }
+            c.attr_is("pads", pads);
+        }
+    }
+}
+
+fn gen_pool(rng: &mut Rng) -> Case {
+    let op = *rng.pick(&["MaxPool", "MaxPool", "AveragePool", "AveragePool", "GlobalMaxPool", "GlobalAveragePool"]);
+    let mut c = Case::new(op);
+    let nsp = 1 + rng.usize_below(2);
+    let mut shape = vec![1 + rng.usize_below(2), *rng.pick(&[1usize, 2, 3, 5])];
+    for _ in 0..nsp {
+        shape.push(odd_size(rng));
+    }
+    let global = op.starts_with("Global");
+    if global {
+        let cnt: usize = shape[2..].iter().product();
+        c.fscale = Some(if op == "GlobalAveragePool" { cnt as i64 } else { 1 });
+        if op == "GlobalAveragePool" {
+            c.model_only_i("scale", cnt as i64);
+        }
+        c.push(float_tensor(rng, shape, -9, 9));
+        return c;
+    }
+    let kernel: Vec<usize> = (0..nsp).map(|_| 1 + rng.usize_below(3)).collect();
+    c.attr_is("kernel_shape", kernel.iter().map(|&k| k as i64).collect());
+    spatial_attrs(rng, &mut c, nsp, &kernel, op == "MaxPool");
+    if rng.chance(2, 3) {
+        c.attr_i("ceil_mode", rng.range_i64(0, 1));
+    }
+    if op == "AveragePool" {
+        if rng.chance(2, 3) {
+            c.attr_i("count_include_pad", rng.range_i64(0, 1));
+        }
+        // 2520 = lcm(1..9): every possible divisor of a window of at most 3x3 elements
+        c.fscale = Some(2520);
+        c.model_only_i("scale", 2520);
+    } else {
+        c.fscale = Some(1);
+    }
+    c.push(float_tensor(rng, shape, -9, 9));
+    c
+}
+
+fn gen_conv(rng: &mut Rng) -> Case {
+    let mut c = Case::new("Conv");
+    c.fscale = Some(1);
+    let nsp = 1 + rng.usize_below(2);
+    let group = *rng.pick(&[1usize, 1, 2, 3]);
+    let cg = 1 + rng.usize_below(2);
+    let mg = 1 + rng.usize_below(2);
+    let mut xs = vec![1 + rng.usize_below(2), cg * group];
+    let mut ws = vec![mg * group, cg];
+    let mut kernel = vec![];
+    for _ in 0..nsp {
+        xs.push(odd_size(rng));
+        let k = 1 + rng.usize_below(3);
+        kernel.push(k);
+        ws.push(k);
+    }
+    if rng.chance(7, 8) {
+        c.attr_is("kernel_shape", kernel.iter().map(|&k| k as i64).collect());
+    }
+    spatial_attrs(rng, &mut c, nsp, &kernel, true);
+    if group != 1 || rng.chance(1, 3) {
+        c.attr_i("group", group as i64);
+    }
+    c.push(float_tensor(rng, xs, -4, 4));
+    let mut w = float_tensor(rng, ws, -3, 3);
+    w.via = param_via(rng);
+    c.push(w);
+    if rng.chance(1, 2) {
+        let mut b = float_tensor(rng, vec![mg * group], -9, 9);
+        b.via = param_via(rng);
+        c.push(b);
+    }
+    c
+}
+
 type Gen = fn(&mut Rng) -> Case;
 
 const GENS: &[(&str, Gen, u64)] = &[
@@ -1449,6 +1590,8 @@ const GENS: &[(&str, Gen, u64)] = &[
     ("depth_to_space", gen_depth_to_space, 2),
     ("shape_size", gen_shape_size, 3),
     ("constant_of_shape", gen_constant_of_shape, 1),
+    ("pool", gen_pool, 14),
+    ("conv", gen_conv, 8),
 ];
 
 // ---------------------------------------------------------------------------------------------
@@ -1522,6 +1665,9 @@ type OutT = (char, Vec<usize>, Vec<i64>);
 
 fn oracle(c: &Case, outs: &[OutT]) -> Option<String> {
     for (k, (ty, shape, data)) in outs.iter().enumerate() {
+        if *ty == 'x' {
+            return Some(format!("float output {k} times the common denominator is not an integer: not an exact sum/count quotient"));
+        }
         if *ty != 'i' {
             return Some(format!("output {k} has element type {ty}, expected int32"));
         }
@@ -1747,6 +1893,45 @@ fn oracle(c: &Case, outs: &[OutT]) -> Option<String> {
             }
             if *odata != want {
                 return Some(format!("differs from the sequential scatter {}", hcommon::join(want.iter(), ",")));
+            }
+            None
+        }
+        "MaxPool" | "AveragePool" => {
+            // output extent per the ONNX formula (explicit padding only)
+            let ints = |name: &str| -> Option<Vec<i64>> {
+                c.attrs.iter().find(|a| a.name == name).and_then(|a| match &a.v {
+                    AV::Is(v) => Some(v.clone()),
+                    _ => None,
+                })
+            };
+            let auto = c.get_s("auto_pad").unwrap_or("NOTSET".into());
+            if auto != "NOTSET" {
+                return None;
+            }
+            let x = ins[0];
+            let nsp = x.shape.len() - 2;
+            let kernel = ints("kernel_shape")?;
+            let strides = ints("strides").unwrap_or(vec![1; nsp]);
+            let dils = ints("dilations").unwrap_or(vec![1; nsp]);
+            let pads = ints("pads").unwrap_or(vec![0; 2 * nsp]);
+            let ceil = c.get_i("ceil_mode").unwrap_or(0) != 0;
+            let mut want = x.shape[..2].to_vec();
+            for a in 0..nsp {
+                let eff = (kernel[a] - 1) * dils[a] + 1;
+                let padded = x.shape[2 + a] as i64 + pads[a] + pads[nsp + a];
+                if padded < eff || pads[a] >= eff || pads[nsp + a] >= eff {
+                    return None;
+                }
+                let w = padded - eff;
+                let mut o = if ceil { (w + strides[a] - 1) / strides[a] + 1 } else { w / strides[a] + 1 };
+                // windows that would start in the end padding are ignored
+                if ceil && (o - 1) * strides[a] >= x.shape[2 + a] as i64 + pads[a] {
+                    o -= 1;
+                }
+                want.push(o as usize);
+            }
+            if *oshape != want {
+                return Some(format!("output shape {oshape:?} but the ONNX pooling formula gives {want:?}"));
             }
             None
         }
